@@ -16,7 +16,7 @@ RULE = (
     "realms, 3 passwords; initial content from a grammar (records, comments, blank and whitespace-only lines, duplicate users, "
     "CRLF, missing final newline; malformed lines must raise on load); rules: set_password, set_hash (real hashes), delete, "
     "delete_realm, check_password (right/wrong/unknown), get_hash, users/realms, to_string, save, save(path), load, load_string, "
-    "load_if_changed after an external rewrite (strictly increasing synthetic mtimes via os.utime), re-open from path; autosave "
+    "load_if_changed after an external rewrite (strictly increasing synthetic mtimes via os.utime), re-open from path, a refused load_string of malformed text (must raise and change nothing); autosave "
     "on/off, str/bytes arguments, encodings utf-8/latin-1, return_unicode; default htpasswd context and a custom one with a "
     "deprecated scheme. Plus explicit-state exploration of ALL operation sequences up to length 4 (thorough 5) over {set a, set b, "
     "delete a, delete b, check, export+reparse, save+reload} from 3 initial files. Oracle: a model (ordered items + dict); after "
@@ -457,6 +457,15 @@ def apply_ops(rec, hist, soft=False):
                 model.load(new)
                 if db.autosave and bound:
                     pass
+            elif name == "load_bad":
+                # a refused load loads nothing: ValueError, and users / hashes / passwords stay as they were (the invariant below compares with the unchanged model)
+                badf = MALFORMED[op[1] % len(MALFORMED)][0 if cls == "htpasswd" else 1]
+                st, res = call(db.load_string, badf if op[2] % 2 or encoding != "utf-8" else badf.decode("utf-8"))
+                if not (st == "err" and isinstance(res, ValueError)):
+                    fail("malformed-load-accepted", "load_string() of a database with a malformed line does not raise ValueError", i, repr(res), "ValueError")
+                    return nontrivial
+                if model.recs:
+                    nontrivial = True
             elif name == "badname":
                 bad = BAD_NAMES[op[1] % len(BAD_NAMES)]
                 meths = [("get_hash", ()), ("delete", ()), ("check_password", ("pw",)), ("set_password", ("pw",))]
@@ -524,13 +533,20 @@ def initial_files():
 
 
 EXTERNAL = None
+MALFORMED = None
 
 
 def _init_external():
-    global EXTERNAL
+    global EXTERNAL, MALFORMED
     if EXTERNAL is None:
         fs = initial_files()
         EXTERNAL = [(f[0], f[1]) for f in fs if not f[2].startswith("malformed")]
+        u9 = b"zed"
+        # malformed line after good lines (one of them a user that usually is not in the current state), and as the very first line
+        MALFORMED = [(f[0], f[1]) for f in fs if f[2].startswith("malformed")] + [
+            (u9 + b":" + _h("des_crypt", "pw9") + b"\n" + fs[1][0] + b"no colon here\n", u9 + b":" + REALMS[0].encode() + b":" + b"0" * 32 + b"\n" + fs[1][1] + b"only:two\n"),
+            (b"nocolon\n" + fs[1][0], b"a:b\n" + fs[1][1]),
+        ]
 
 
 @oracle(PROPERTY, "history")
@@ -628,6 +644,10 @@ def make_machine(rec, cls):
         def load_string(self, k):
             self._step(["load_string", k])
 
+        @rule(k=st.integers(0, 3), b=st.integers(0, 1))
+        def load_bad(self, k, b):
+            self._step(["load_bad", k, b])
+
         @rule(k=st.integers(0, 11), m=st.integers(0, 3), w=st.integers(0, 1))
         def badname(self, k, m, w):
             self._step(["badname", k, m, w])
@@ -669,6 +689,18 @@ def t_explore(rec, seed, tier, cls, file_index, first, encoding="utf-8"):
             for seq in itertools.product(range(5), repeat=ln - 1):
                 hist = {"cls": cls, "initial": initial, "initial_label": files[file_index][2], "autosave": True, "bound": True, "encoding": encoding,
                         "return_unicode": True, "ctx": "custom", "default_realm": False, "ops": [ops2[first]] + [ops2[k] for k in seq]}
+                if apply_ops(rec, hist, soft=True):
+                    nt += 1
+                n += 1
+    # third pass: a refused load (malformed text) anywhere in a short history leaves the database as it was
+    if first == 0:
+        ops3 = [["set_password", 0, 0, 1, False], ["delete", 0, 0, False], ["check", 0, 0, 1, False], ["load_bad", 0, 0], ["load_bad", 2, 1], ["load_bad", 3, 0], ["reload"]]
+        for bound, autosave in ((False, False), (True, True)):
+            for seq in itertools.product(range(7), repeat=3):
+                if not any(ops3[k][0] == "load_bad" for k in seq):
+                    continue
+                hist = {"cls": cls, "initial": initial, "initial_label": files[file_index][2], "autosave": autosave, "bound": bound, "encoding": encoding,
+                        "return_unicode": True, "ctx": "custom", "default_realm": False, "ops": [ops3[k] for k in seq]}
                 if apply_ops(rec, hist, soft=True):
                     nt += 1
                 n += 1
